@@ -40,6 +40,7 @@ CONSTANTS
     SeqAlphaA, SeqLensA,     \* first sequence: all strings over SeqAlphaA with length in SeqLensA ...
     SeqAlphaB, SeqLensB,     \* ... plus all strings over SeqAlphaB with length in SeqLensB
     HomoLens,                \* ... plus the homopolymers "C"*n, n in HomoLens (longer multiples of the block sizes)
+    QSeqs,                   \* number of sequences of the ragged family Q (lengths around the wrap width, every order)
     PairAlpha, PairLen       \* pairs of special names (both special): strings of length 1..PairLen over PairAlpha
 
 VARIABLES sel, case, stage
@@ -132,6 +133,10 @@ NonEmptyRecs(e) == SelectSeq(e, LAMBDA r : ~IsEmptyRec(r))
 Allowed(c) == IF c.fmt # "json" /\ (\E i \in 1..Len(c.seqs) : c.seqs[i] = <<>>)
               THEN {Ok(Exp(c)), Ok(NonEmptyRecs(Exp(c))), Err("record without data")}
               ELSE {Ok(Exp(c))}
+(* The bytes based FASTA parser (and with it load_*_seqs / load_seq of a fasta  *)
+(* file) makes no such check: it returns one record per label line, residues or *)
+(* not, so for it the oracle is demanded on zero-length sequences too.           *)
+AllowedBytes(c) == IF c.fmt = "fasta" THEN {Ok(Exp(c))} ELSE Allowed(c)
 
 -----------------------------------------------------------------------------
 (* Structural class of a case (used in finding keys and in Clean).             *)
@@ -377,7 +382,7 @@ Rotate(s) == [i \in 1..Len(s) |-> Rot(s[i])]
 Derived(s) == <<s, Reverse(s), Rotate(s)>>            \* an alignment built from its first row
 Ragged(s) == <<s, SubSeq(s, 2, Len(s)), SubSeq(s, 1, Len(s) - 2)>>   \* lengths L, L-1, L-2
 
-(* ragged family Q: three sequences whose lengths are taken independently from   *)
+(* ragged family Q: QSeqs sequences whose lengths are taken independently from   *)
 (* {0, 1, b, b+1, 2b+2} (b = the writer's block size): shorter than, exactly,   *)
 (* one more than, and more than twice the wrap width; every order, so the first *)
 (* sequence is the shortest in some cases and the longest in others.  The       *)
@@ -413,7 +418,7 @@ Selectors ==
     \* R: ragged collections (unaligned only, formats without a common length)
     \cup UNION {{Sel("R", f, b, 3, 0) : b \in BlocksFor(f)} : f \in RaggedFmts}
     \* Q: ragged collections with lengths on both sides of the wrap width, in every order
-    \cup UNION {{Sel("Q", f, b, 3, 0) : b \in BlocksFor(f)} : f \in RaggedFmts}
+    \cup UNION {{Sel("Q", f, b, QSeqs, 0) : b \in BlocksFor(f)} : f \in RaggedFmts}
     \* P: two special names
     \cup (IF PairLen > 0 THEN {Sel("P", f, NameBlock, 2, 0) : f \in Fmts} ELSE {})
 
@@ -429,8 +434,8 @@ CasesOf(sl) ==
           [] sl.fam = "R" ->
                {Case("R", sl.fmt, sl.block, BaseNames, Ragged(s), TRUE) : s \in {t \in FirstSeqs : Len(t) >= 2}}
           [] sl.fam = "Q" ->
-               {Case("Q", sl.fmt, sl.block, BaseNames, <<Pat(l[1], 1), Pat(l[2], 2), Pat(l[3], 3)>>, TRUE)
-                    : l \in {t \in [1..3 -> QLensOf(sl.block)] : ~(t[1] = t[2] /\ t[2] = t[3])}}
+               {Case("Q", sl.fmt, sl.block, SubSeq(BaseNames, 1, QSeqs), [i \in 1..QSeqs |-> Pat(l[i], i)], TRUE)
+                    : l \in {t \in [1..QSeqs -> QLensOf(sl.block)] : \E i \in 2..QSeqs : t[i] # t[1]}}
           [] sl.fam = "P" ->
                {Case("P", sl.fmt, NameBlock, <<s1, s2>>, SubSeq(FixedSeqs, 1, 2), FALSE)
                     : s1 \in PairNames, s2 \in PairNames}
@@ -462,6 +467,7 @@ RoundTrip ==
              args |-> <<>>,
              to   |-> [exp   |-> Exp(case),
                        allowed |-> Allowed(case),
+                       allowed_bytes |-> AllowedBytes(case),
                        cls   |-> CaseClass(case),
                        lines |-> CanonLines(case),
                        model |-> ModelOut(case),
@@ -503,6 +509,10 @@ LineParsersKeepGt ==
 BytesParserKeepsGt ==
     (Ready /\ case.fmt = "fasta" /\ NoBlankEdge(case) /\ ~HasEmptySeq(case)) =>
         BytesParser(CanonLines(case)) = Ok(Exp(case))
+(* ... and returns a record for every label line, with or without residues      *)
+BytesParserKeepsEmpty ==
+    (Ready /\ case.fmt = "fasta" /\ NoBlankEdge(case)) =>
+        BytesParser(CanonLines(case)) \in AllowedBytes(case)
 HasGtCovered ==
     (stage = "pick" /\ sel.fmt = "fasta" /\ sel.fam = "N" /\ sel.p <= sel.n /\ ~(sel.n = 3 /\ sel.p # 2)) =>
         \E c \in CasesOf(sel) : ~NoGt(c) /\ NoBlankEdge(c)
